@@ -268,6 +268,8 @@ theorem children_keys_pairwise {h : Heap} (hg : GoodDicts h) {r : Ref} {n : Node
   | tuple rs => exact seqChildren_keys_pairwise rs 0
   | leaf v => simp [Node.children]
   | null => simp [Node.children]
+  | nd _ _ _ => simp [Node.children]
+  | buf _ => simp [Node.children]
 
 theorem dictGet_of_mem {es : List (DKey × Ref)} (hnd : (es.map (·.1)).Nodup) {k : DKey} {c : Ref}
     (hm : (k, c) ∈ es) : dictGet es k = some c := by
@@ -323,6 +325,8 @@ theorem children_slotGet {h : Heap} (hg : GoodDicts h) {r : Ref} {n : Node} (hn 
     simp [Node.slotGet, seqGet, PKey.asInt, resolveIdx, hlt, hge]
   | leaf v => simp [Node.children] at hm
   | null => simp [Node.children] at hm
+  | nd _ _ _ => simp [Node.children] at hm
+  | buf _ => simp [Node.children] at hm
 
 /-- **A listed path reads back its leaf.** -/
 theorem LeafWalk.get {h : Heap} (hg : GoodDicts h) {r : Ref} {q : Path} {x : Ref} (w : LeafWalk h r q x) :
@@ -414,6 +418,8 @@ theorem dfs_total {h : Heap} {r : Ref} (w : WF h r) :
           exact List.mem_of_getElem? hi
         | leaf v => simp [Node.children] at hkc
         | null => simp [Node.children] at hkc
+        | nd _ _ _ => simp [Node.children] at hkc
+        | buf _ => simp [Node.children] at hkc
       have hall : ∃ F, ∀ kc ∈ n.children, ∀ parent : Path, parent ≠ [] → ∃ ps, dfs h F kc.2 parent = .ok ps := by
         generalize n.children = kcs at hmemrefs
         induction kcs with
